@@ -102,6 +102,18 @@ mut("m13b_gear_side1_always", "C13", DEV, "                    if datum1.time >=
 mut("m13c_invert_no_sign", "C13", DEV, "self.term2.borrow_mut().set(-datum_command)?;", "self.term2.borrow_mut().set(datum_command)?;")
 mut("m13d_axle_first_present", "C13", DEV, "            maybe_datum.replace_if_none_or_older_than_option(i.borrow().get()?);", "            if maybe_datum.is_none() { maybe_datum = i.borrow().get()?; }")
 mut("m13e_replace_ge", "C13", DATUM, "            if self_datum.time >= maybe_replace_with.time {\n                return false;", "            if self_datum.time > maybe_replace_with.time {\n                return false;", note="ties only; expected NOT observable with unique stamps")
+# ---- C15
+mut("m15a_last_request_before_impl_set", "C15", LIB, "        self.impl_set(value.clone())?;\n        let data = self.get_settable_data_mut();\n        data.last_request = Some(value);\n        Ok(())", "        let data = self.get_settable_data_mut();\n        data.last_request = Some(value.clone());\n        self.impl_set(value)?;\n        Ok(())")
+mut("m15b_follow_absent_resets_previous", "C15", LIB, "                    None => {\n                        return Ok(());\n                    }\n                    Some(datum) => {\n                        self.set(datum.value)?;", "                    None => {\n                        let prev = self.get_last_request();\n                        if let Some(v) = prev { self.set(v)?; }\n                        return Ok(());\n                    }\n                    Some(datum) => {\n                        self.set(datum.value)?;")
+mut("m15c_stop_following_noop", "C15", LIB, "    fn stop_following(&mut self) {\n        let data = self.get_settable_data_mut();\n        data.following = None;", "    fn stop_following(&mut self) {\n        let data = self.get_settable_data_mut();\n        let _ = data;")
+mut("m15d_custom_start_reversed", "C15", LIB, "let time_delta = start - time_getter.borrow().get()?;", "let time_delta = time_getter.borrow().get()? - start;")
+mut("m15e_set_time_adds_old_delta", "C15", LIB, "        let time_delta = time - self.time_getter.borrow().get()?;\n        self.time_delta = time_delta;", "        let time_delta = time - self.time_getter.borrow().get()? + self.time_delta;\n        self.time_delta = time_delta;")
+mut("m15f_adapter_history_stamp", "C15", LIB, "Some(datum) => Some(Datum::new(time, datum.value)),", "Some(datum) => Some(datum),")
+mut("m15g_constant_getter_ignores_set", "C15", LIB, "    fn impl_set(&mut self, value: T) -> NothingOrError<E> {\n        self.value = value;", "    fn impl_set(&mut self, value: T) -> NothingOrError<E> {\n        let _ = value;")
+mut("m15h_adapter_minus_delta", "C15", LIB, "self.history.get(time + self.time_delta)", "self.history.get(time - self.time_delta)")
+mut("m15i_start_at_zero_sign", "C15", LIB, "let time_delta = -time_getter.borrow().get()?;", "let time_delta = time_getter.borrow().get()?;")
+mut("m15j_follow_error_swallowed", "C15", LIB, "                let new_value = getter.borrow().get()?;", "                let new_value = match getter.borrow().get() { Ok(v) => v, Err(_) => return Ok(()) };")
+mut("m15k_set_time_offset_on_error", "C15", LIB, "    pub fn set_time(&mut self, time: Time) -> NothingOrError<E> {\n        let time_delta", "    pub fn set_time(&mut self, time: Time) -> NothingOrError<E> {\n        self.time_delta = Time(0);\n        let time_delta", note="offset must stay unchanged when the clock errs")
 # ---- C20
 mut("m20a_act_command_only", "C20", WRAP, "Some(terminal_data) => self.inner.set(terminal_data.value)?,", "Some(terminal_data) => { let mut v: TerminalData = terminal_data.value; v.state = None; self.inner.set(v)? }")
 mut("m20b_act_update_first", "C20", WRAP, "        self.update_terminals()?;\n        match self\n            .terminal", "        self.update_terminals()?;\n        self.inner.update()?;\n        match self\n            .terminal")
